@@ -41,6 +41,23 @@ CHECKS = {
                      "update_statepoint without overwrite never alters an existing key.",
                 note="Trusted: MemFS POSIX model (validated against tmpfs on every run; counterexamples replayed on the real FS), CrossHair path enumeration, the plain-dict model in vflib/ws.py. One open known finding (collection -> None assignment).",
                 ref="DESIGN.md §4 C04"),
+    "C08": dict(tech="SMT-backed symbolic execution (CrossHair+z3) over histories of the real cache code on an in-memory POSIX model",
+                text="Bounded proof: for every initial workspace subset of a 4-job universe, every cache-file state (absent/exact/stale extra/stale missing/both) and every history of length <= 2 (quick) / 3-4 (thorough) over "
+                     "{init, remove, re-key, update_cache, restart, delete cache file}, all observations (len, find_jobs, filtered find_jobs, open_job(id).statepoint) agree with the model in the running session, in a fresh session and in a fresh session without the cache file; "
+                     "after update_cache() the decoded file lists exactly the workspace, and an immediate second call does nothing.",
+                note="Trusted: MemFS (+gzip over it, synchronous ThreadPool stand-in) validated against tmpfs on every run; CrossHair path enumeration. Outside: corrupted workspaces, >4 jobs.",
+                ref="DESIGN.md §4 C08"),
+    "C10": dict(tech="SMT-backed symbolic execution (CrossHair+z3): crash step, torn length, failing step and the two steps of a concurrent reader are symbolic (step indices unbounded) over the real document/cache writers on an in-memory POSIX model with inode semantics",
+                text="Bounded proof: in 11 write scenarios (job/project documents of several sizes, delete, reset, buffered flush of two jobs, update_cache first/growing/shrinking/warm) and both states of the dependency's thread-safety switch, "
+                     "for a crash before ANY step index, a torn write of 0/1/half/len-1 bytes, a failing step (4 errnos), and every placement of a reader's open and read among the writer's steps, the target file parses completely to the old or the new content and only temp files are left.",
+                note="Trusted: MemFS POSIX/inode model (validated against tmpfs on every run, counterexamples replayed on the real FS); POSIX rename atomicity; process-crash durability. Outside: power loss, NFS, chunked readers.",
+                ref="DESIGN.md §4 C10"),
+    "C11": dict(tech="SMT-backed symbolic execution (CrossHair+z3): the crash / failing step index is an unbounded symbolic int compared at every file-system step of the real lifecycle code running on an in-memory POSIX model",
+                text="Bounded proof: in 14 lifecycle scenarios (init x4, re-key x4, move x2, clone, remove, clear, reset), both directory-listing orders, for a crash before ANY step, torn writes, and any step failing with EIO/ENOSPC/EACCES/EXDEV/EROFS "
+                     "(thorough: two failing steps): bystander jobs byte-identical, payload under exactly one id directory, check() names exactly the non-validating directories, nothing validates with a foreign state point, "
+                     "and a handled error either propagates leaving pre-state / success-state / check()-detectable state or the call's result equals a fault-free run.",
+                note="Trusted: MemFS model incl. shutil.copytree/rmtree expansions (validated against tmpfs on every run; counterexamples replayed on the real FS). Outside: ENOENT faults, power loss, h5py.",
+                ref="DESIGN.md §4 C11"),
 }
 NOT_YET = {}
 
